@@ -93,7 +93,28 @@ def run_scenario(bins, sc, keep=False):
         hook_trace = os.path.join(fx.root, "hooks.ndjson")
         if sc.get("hook_trace"):
             env["MONORAIL_VERIF_TRACE"] = hook_trace
+        watcher = None
+        if sc.get("hold"):
+            # park monorail at a hook point until the helpers have reached a given state (causal, not timed): the
+            # marker appears once `until_ended` helper processes have exited
+            import threading
+            hold = sc["hold"]
+            marker = os.path.join(fx.root, "hold-marker")
+            env["MONORAIL_VERIF_DELAY"] = "%s:%d:@%s" % (hold["point"], hold.get("hit", 1), marker)
+            def watch():
+                deadline = time.time() + 25
+                while time.time() < deadline:
+                    if sum(1 for e in fx.events() if e["k"] == "end") >= hold["until_ended"]:
+                        break
+                    time.sleep(0.01)
+                time.sleep(hold.get("settle_s", 0.25))      # monorail's own tasks notice the exits meanwhile
+                with open(marker, "w"):
+                    pass
+            watcher = threading.Thread(target=watch, daemon=True)
+            watcher.start()
         res = fx.monorail(args, env=env, timeout=sc.get("timeout", 150))
+        if watcher is not None:
+            watcher.join(timeout=30)
         hooks = []
         if sc.get("hook_trace") and os.path.exists(hook_trace):
             with open(hook_trace) as f:
@@ -311,6 +332,13 @@ def random_scenario(seed, nt_range=(5, 12), fail_prob=0.35, slow_deps=True):
             scripts[key] = steps
     sc = {"targets": ts, "commands": cmds, "kinds": kinds, "fou": fou, "scripts": scripts,
           "label": "random-%d" % seed}
+    if rng.random() < 0.35:
+        # some targets keep their commands in a directory of their own choosing (a `commands` block in the configuration)
+        sc["cmd_dirs"] = {}
+        for t in rng.sample(ts, min(len(ts), rng.randint(1, 3))):
+            d = t["path"] + "/" + rng.choice(["scripts", "tools/bin", "ci"])
+            t["commands"] = {"path": d}
+            sc["cmd_dirs"][t["path"]] = d
     if use_seq and ncmd >= 3:
         # two sequences, given in an order that is not the alphabetical order of their names, then --commands
         sc["sequences_cfg"] = {"zz-first": cmds[:1], "aa-second": cmds[1:ncmd - 1], "mm-unused": ["never"]}
@@ -372,6 +400,29 @@ def barrier_scenario(size, position, seed=0, shared=False):
                 t["commands"] = {"path": "tools/cmd"}
         sc["cmd_dirs"] = {m: "tools/cmd" for m in members}
     return sc
+
+
+def late_success_scenario(nsib, seed=0, fail_first=True):
+    """C06: in one group one executable exits non-zero and the others exit 0 ON THEIR OWN right after it, all of them
+    before the run's join loop looks at any result (the loop is parked at its first run.join_next until every member
+    has exited). Whatever order the results are joined in, the run has failed: a later group must be skipped."""
+    rng = random.Random(seed)
+    members = ["m%d" % i for i in range(nsib + 1)]
+    ts = [{"path": m} for m in members] + [{"path": "later", "uses": list(members)}, {"path": "last", "uses": ["later"]}]
+    rng.shuffle(ts)
+    bad = members[0]
+    scripts = {}
+    code = rng.choice(EXIT_CODES)
+    for m in members:
+        if m == bad:
+            steps = [{"op": "out", "text": "bad member\n"}] + ([] if fail_first else [{"op": "wait", "tasks": [["build", o, "ended"] for o in members if o != bad], "timeout_ms": 8000}]) \
+                    + [{"op": "exit", "code": code}]
+        else:
+            steps = ([{"op": "wait", "tasks": [["build", bad, "ended"]], "timeout_ms": 8000}] if fail_first else []) + [{"op": "out", "text": "good member %s\n" % m}, {"op": "exit", "code": 0}]
+        scripts["build|" + m] = steps
+    return {"targets": ts, "commands": ["build"], "kinds": {}, "fou": False, "scripts": scripts, "mode": "all",
+            "hold": {"point": "run.join_next", "hit": 1, "until_ended": len(members)},
+            "label": "late-success-%d-%s" % (nsib, "failfirst" if fail_first else "faillast")}
 
 
 def impl_trace(rec, dbg):
